@@ -282,6 +282,13 @@ def run(ctx: Ctx):
     bad2 = [f for f, c in callers2 if f is None or f.qual != close.qual]
     ctx.ob("R14.3", close, "callers of %s: %s" % (closing.name, sorted({(f.qual if f else "<module>") for f, _ in callers2})),
            bool(callers2) and not bad2, "the closing routine runs only from close()", node=close.node)
+    # close() runs the closing routine exactly in write mode, then closes the handle
+    pmcl = parents_map(close.node)
+    cw = [c for c in calls_in(close.node) if call_name(c) == closing.name]
+    gcl = [(norm(t), pol) for t, pol in guards_of(cw[0], pmcl)] if cw else []
+    ctx.ob("R14.3", close, cw[0] if cw else "closing call", gcl in ([("'w' in self._file.mode", True)], [("'r' in self._file.mode", False)]),
+           "closing a file opened for writing always writes the closing information (count back-fill and box line)",
+           node=cw[0] if cw else close.node)
     # last write
     flat = stmts_sorted(closing.node)
     writes = [st for st in flat if isinstance(st, ast.Expr) and isinstance(st.value, ast.Call)
